@@ -261,7 +261,9 @@ Conjugate_gradient_on_the_normal_equations>`_.
     for _ in range(niter):
         op(p, out=q)                       # q = A p
         sqnorm_q = q.norm() ** 2
-        if sqnorm_q == 0.0:  # Return if residual is 0
+        if sqnorm_q == 0.0 or sqnorm_s_old == 0.0:
+            # Return if the residual or the normal-equation residual is 0
+            # (the latter also by underflow when iterating past convergence)
             return
 
         a = sqnorm_s_old / sqnorm_q
